@@ -260,7 +260,7 @@ PROPS["C18"] = traits_entry(
     lambda e: (e["op"] == "root" and to_int(e["a"][1]) >= 2 and abs(to_int(e["a"][0])) >= (1 << 64)) or (e["op"] == "integer" and (to_int(e["a"][0]) < 0) != (to_int(e["a"][1]) < 0)) or (e["op"] == "integer" and multi_digit(e, 0) and multi_digit(e, 1)))
 
 PROPS["C20"] = {
-    "bin": "rand", "modes": {"quick": ["opt"], "thorough": ["opt", "debug"]}, "prims": False,
+    "bin": "rand", "modes": {"quick": ["opt"], "thorough": ["opt"]}, "prims": False,
     "rule": "Standard/Fill/try_fill_slice on scripted byte streams (value bytes = stream bytes, bytes consumed, slice fill = element-wise fill); "
             "uniform sampling through Uniform::new(_inclusive).sample, sample_single(_inclusive), gen_range(.. and ..=): complete enumeration of all 2^8 / 2^16 first RNG words for 40 / 5 ranges per 8- and 16-bit type "
             "(sizes 1,2,3,...,2^k,2^k+1, ranges spanning zero, ending at MAX, starting at MIN) and of all 2^24 words for a non-power-of-two range on the 24-bit types (where the approximate rejection zone first applies), "
